@@ -549,7 +549,7 @@ def run_cov(ctx, corr, exe):
 SAN_MARK = re.compile(r"ERROR: AddressSanitizer|runtime error:|ERROR: LeakSanitizer|AddressSanitizer:DEADLYSIGNAL|UndefinedBehaviorSanitizer")
 
 
-def run_gama(gl, data, extra=(), timeout=20):
+def run_gama(gl, data, extra=(), timeout=10):
     with tempfile.NamedTemporaryFile(prefix="c11_", suffix=".gkf", delete=False) as f:
         f.write(data)
         name = f.name
@@ -709,7 +709,7 @@ def exec_oracle(ctx, corr, inputs):
         if verdict:
             corr.fail(f"gama-local: {verdict[0]} [{lab}]", {"stream": "exec", "label": lab, "options": list(extra),
                                                             "doc": d.decode("utf-8", "replace"), "doc_hex": d.hex() if len(d) < 20000 else None},
-                      verdict[1], err[-2500:])
+                      verdict[1], (err[:2200] + "\n[...]\n" + err[-600:]) if len(err) > 2900 else err)
     corr.count("exec_runs", len(uniq))
     ctx.log(f"executable oracle: {len(uniq)} runs of sanitized gama-local in {time.time() - t0:.1f}s")
 
@@ -787,6 +787,10 @@ def classify(ctx, failure):
     det = failure.detail or ""
     if "rc=87" in w and re.search(r"svd\.h:\d+:\d+: runtime error: applying non-zero offset \d+ to null pointer", det) and "reset_UWV" in det:
         return "C11-svd-empty-ub"
+    if "heap-buffer-overflow" in w and "LocalNetwork::Unknown::operator=" in det and "LocalNetwork::project_equations" in det:
+        return "C11-unknowns-stale-index"
+    if ("does not terminate" in w) and re.search(r'val="[^"]*(1e999|1e300|1e18|inf)[^"]*"', doc):
+        return "C11-norm-rad-hang"
     if "rc=87" in w and re.search(r"memrep\.h:\d+:\d+: runtime error: null pointer passed as argument", det):
         return "C11-memrep-empty-memcpy"
     if "rc=87" in w and re.search(r"acord(hdiff|vector)\.h:\d+:\d+: runtime error: load of value \d+, which is not a valid value for type 'bool'", det):
